@@ -50,6 +50,36 @@ Delivery(r, C) ==
         /\ \A i \in 1..Len(ItemsP(r.probes[p])) : SeqContains(em, ItemsP(r.probes[p])[i])
         /\ IsSetup(p) => \A i \in 1..Len(em) : SeqContains(ItemsP(r.probes[p]), em[i])
 
+(* C05 (thread part): when the scripts complete the outer subject and every hot inner and nobody unsubscribes or fails, *)
+(* the flattened stream has completed once all calls have returned, and every synchronous inner selected by an outer    *)
+(* item was delivered exactly once (a hand-over of the concurrency slot that gets lost shows here)                      *)
+Completes(ss, a) == \E i \in 1..Len(ss) : ss[i].k = "emit" /\ ss[i].a = a /\ ss[i].t = "C"
+Quiet(ss) == \A i \in 1..Len(ss) : ss[i].k = "emit" /\ ss[i].t # "E"
+InnerAst(x, v) == PL(x)[(W(v) % Len(PL(x))) + 1]
+RECURSIVE CountOf(_, _)
+CountOf(s, v) == IF s = <<>> THEN 0 ELSE (IF Head(s) = v THEN 1 ELSE 0) + CountOf(Tail(s), v)
+FlatComplete(r, C) ==
+  LET ss == AllStims(C.threads)
+      x == C.root IN
+  (Op(x) = "flat" /\ Quiet(ss) /\ \A a \in 1..C.nsubj : Completes(ss, a)) =>
+     \A p \in DOMAIN r.probes :
+        LET lg == r.probes[p] IN
+        /\ lg # <<>> /\ lg[Len(lg)][1] = "C"
+        /\ \A i \in 1..Len(ss) :
+              (ss[i].a = 1 /\ ss[i].t = "N" /\ Op(InnerAst(x, ss[i].v)) = "of") =>
+                 CountOf(ItemsP(lg), PV(InnerAst(x, ss[i].v))) = 1
+
+(* C11 (thread part): a subscriber of a shared observable that was there before the threads started and is not unsubscribed *)
+(* by any of them receives every item the threads emit, whatever the other subscribers do meanwhile                         *)
+SetupName(a) == IF a = 1 THEN "s1" ELSE IF a = 2 THEN "s2" ELSE IF a = 3 THEN "s3" ELSE "?"
+ShareDelivery(r, C) ==
+  LET ss == AllStims(C.threads)
+      em == EmittedItems(ss)
+      left == {SetupName(ss[i].a) : i \in {j \in 1..Len(ss) : ss[j].k = "unsub"}} IN
+  (Op(C.root) = "share" /\ \A i \in 1..Len(ss) : ss[i].k \in {"sub", "unsub"} \/ (ss[i].k = "emit" /\ ss[i].t = "N")) =>
+     \A p \in DOMAIN r.probes :
+        (IsSetup(p) /\ p \notin left) => \A i \in 1..Len(em) : SeqContains(ItemsP(r.probes[p]), em[i])
+
 Judge(r) ==
   LET C == Cases[r.c]
       chk == C.checks
@@ -57,6 +87,11 @@ Judge(r) ==
       f(cond, id) == IF id \in chk /\ cond THEN <<id>> ELSE <<>>
   IN f(r.overlap \/ r.stuck \/ r.fault # "" \/ (~isBeh /\ ~CommonOrder(r.probes)), "C10")
      \o f(~r.stuck /\ r.fault = "" /\ ~Delivery(r, C), "C06")
+     (* a subject call that panics or never returns has not delivered its item to every subscriber; a subscriber that is *)
+     (* called after its unsubscribe() returned is not one of "the current subscribers"                                 *)
+     \o f(Op(C.root) = "subject" /\ (r.stuck \/ r.fault # "" \/ r.late), "C06")
+     \o f(~r.stuck /\ r.fault = "" /\ ~FlatComplete(r, C), "C05")
+     \o f(~r.stuck /\ r.fault = "" /\ ~ShareDelivery(r, C), "C11")
      \o f(r.late, "C02")
      \o f(r.late \/ r.stuck \/ r.fault # "", "C19")      \* a cancelled task's body (or what it subscribed) acts after unsubscribe() returned
      \o f(r.cnt[CntFin] # 1, "C15")
